@@ -70,6 +70,7 @@ ResizeStep(e) ==
   ELSE IF ~ShapeOK(e.g, e.w, e.h) THEN <<"grid_is_height_by_width", term>>
   ELSE IF ~CursorInside(e.cur, e.w, e.h) THEN <<"cursor_inside", term>>
   ELSE IF ~RegionInside(e.reg, e.h) THEN <<"region_inside", term>>
+  ELSE IF ~ResizeKeepsLines(e.psb, e.pg, e.sb, e.g) THEN <<"scrollback_keeps_lines_in_order.across_resize", term>>
   ELSE <<"-", Adopt(term, e, e.w, e.h, e.pend = 1)>>
 
 ViewStep(e) ==
